@@ -1,10 +1,10 @@
 #!/bin/bash
 # adopt_mutant.sh <Cxx> — after tools/eval_mutant.sh confirmed a seeded change in /tmp/mut/<Cxx>,
-# copy it into seeded/<Cxx>/ (patch, demo, notes, confirmation log).
-P=$1; D=/tmp/mut/$P; S=/verif/seeded/$P
+# copy it into seeded/<Cxx>$SUFFIX/ (patch, demo, notes, confirmation log).
+P=$1; R=${MUTROOT:-/tmp/mut}; D=$R/$P; S=/verif/seeded/$P${SUFFIX}
 mkdir -p $S
 cp $D/.mutant/patch.diff $S/patch.diff
 cp $D/.mutant/demo_path.txt $S/demo_path.txt
 cp $D/$(cat $D/.mutant/demo_path.txt | tr -d '\n ') $S/demo_test.go.txt
 cp $D/.mutant/notes.md $S/notes.md
-cp /tmp/mut/$P.eval.log $S/confirm.log
+cp $R/$P.eval.log $S/confirm.log
